@@ -201,10 +201,36 @@ def oracle(c: Case) -> Optional[dict]:
     if same:
         return None
     sig = "C17:not-a-fixed-point"
-    if type(r2) is Invalid and type(r2.err_type).__name__ == "PredicateErrs" and type(r2.validator).__name__ in (
-            "ListValidator", "SetValidator", "UniformTupleValidator", "MapValidator") and _container_pred_on_payload(c.v):
+    leaves = _leaf_failures(r2) if type(r2) is Invalid else []
+    if leaves and _container_pred_on_payload(c.v) and all(
+            type(l.err_type).__name__ == "PredicateErrs" and type(l.validator).__name__ in (
+                "ListValidator", "SetValidator", "UniformTupleValidator", "MapValidator") for l in leaves):
+        # every failure of the second run, at whatever depth, is a container predicate judging a payload container
         sig = "C17:container-predicate-on-payload"
     return {"signature": sig, "what": f"{c.vobj!r} accepted {c.px!r} with payload {w!r}, but re-validating the payload gives {r2!r}"}
+
+
+def _leaf_failures(inv, depth: int = 0) -> list:
+    """The Invalids of an error tree that have no child errors."""
+    if type(inv) is not Invalid or depth > 60:
+        return []
+    e = inv.err_type
+    kids = []
+    for attr in ("keys", "indexes"):
+        d = getattr(e, attr, None)
+        if type(d) is dict:
+            for k in d.values():
+                kids += [k] if type(k) is Invalid else [x for x in (getattr(k, "key", None), getattr(k, "val", None)) if x is not None]
+    for attr in ("variants", "item_errs"):
+        kids += list(getattr(e, attr, None) or [])
+    if type(getattr(e, "child", None)) is Invalid:
+        kids.append(e.child)
+    if not kids:
+        return [inv]
+    out = []
+    for k in kids:
+        out += _leaf_failures(k, depth + 1)
+    return out
 
 
 def _container_pred_on_payload(t) -> bool:
